@@ -11,9 +11,9 @@ Decided, on the public anchor TimeZoneRef::find_local_time_type:
             transition goes to the trailing rule / the NoAvailableLocalTimeType error, and every key the search sees has a
             successor in the table.
   EMPTY     with an empty table no entry is read, the search is not entered, and the only type index used is 0.
-  LOOKUP    DateTime::from_timespec(t, n, zone): the zone is consulted at exactly t, the type handed to
-            from_timespec_and_local is exactly the one the lookup returned, t and n are passed unchanged, and the Ok result
-            is the one from_timespec_and_local built (no path around the lookup).
+  LOOKUP    DateTime::from_timespec(t, n, zone): the zone is consulted exactly once, at exactly t, and every Ok result
+            carries exactly the local time type that lookup returned (a path around the lookup would make it a join of
+            two values), with t and n stored unchanged.
   SCALE     (E-SCALE, shared with C12) the key compared with table times is on the leap-count scale, the instant given to
             the trailing rule is on the UTC scale.
 With the contract of the binary search (Ok(x): table[x] = key; Err(x): table[x-1] < key < table[x]) and strictly
@@ -266,17 +266,18 @@ def check(run, tier):
                 a = seen["lk_args"][0][0]
                 ok_at = len(seen["lk_args"]) == 1 and isinstance(a[1], Scalar) and a[1].sym == p0
             verdict("LOOKUP", "instant", bool(ok_at), "DateTime::from_timespec must consult the zone once, at exactly its Unix-time argument:", {"lookups": len(seen["lk_args"])})
+            # the result: its local time type is exactly what the lookup returned; Unix time and nanoseconds are the arguments
+            final = R.cells.get((frame, 0)) if R is not None else None
+            pay_final = final.variants["Ok"][0] if isinstance(final, Enum) and "Ok" in final.variants and final.variants["Ok"] else None
+            g_ltt, g_ut, g_ns = (E.getter_field(f, "tz::datetime::DateTime::" + n) for n in ("local_time_type", "unix_time", "nanoseconds"))
             ok_ty = False
-            if seen["lk_ret"] is not None and len(seen["ftl_args"]) == 1:
+            if seen["lk_ret"] is not None and isinstance(pay_final, Struct) and None not in (g_ltt, g_ut, g_ns):
                 ret, RS = seen["lk_ret"]
-                a, S2 = seen["ftl_args"][0]
                 pay = ret.variants.get("Ok", (None,))[0] if isinstance(ret, Enum) else None
                 tgt = I.read(RS, pay.cell, pay.path, ("c03p",)) if isinstance(pay, Ref) and pay.cell is not None else None
-                ok_ty = tgt is not None and same_shape(tgt, a[2]) and isinstance(a[0], Scalar) and a[0].sym == p0 and isinstance(a[1], Scalar) and a[1].sym == p1
-            verdict("LOOKUP", "type", ok_ty, "the local time type given to from_timespec_and_local must be the one the lookup returned, with Unix time and nanoseconds unchanged:", {"constructor calls": len(seen["ftl_args"])})
-            final = R.cells.get((frame, 0)) if R is not None else None
-            okp = isinstance(final, Enum) and "Ok" in final.variants and isinstance(seen["ftl_ret"], Enum) and "Ok" in seen["ftl_ret"].variants and same_shape(final.variants["Ok"][0], seen["ftl_ret"].variants["Ok"][0])
-            verdict("LOOKUP", "result", bool(okp), "every Ok result of from_timespec must be the value from_timespec_and_local built after the lookup (no path around it):", {})
+                fu, fn_ = pay_final.fields[g_ut[1]], pay_final.fields[g_ns[1]]
+                ok_ty = tgt is not None and same_shape(tgt, pay_final.fields[g_ltt[1]]) and isinstance(fu, Scalar) and fu.sym == p0 and isinstance(fn_, Scalar) and fn_.sym == p1
+            verdict("LOOKUP", "result", ok_ty, "every Ok result of from_timespec must carry exactly the local time type the lookup returned (no path around the lookup), with Unix time and nanoseconds unchanged:", {"lookups": len(seen["lk_args"])})
         else:
             run.obligation(False)
             run.finding("ANCHOR-MISSING", "%s|%s" % (cfg, FT), "DateTime::from_timespec / from_timespec_and_local not found")
@@ -289,7 +290,7 @@ def check(run, tier):
             run.rule("SCALE", 1, 0 if mine else 1)
             A.findings = mine
             c12.report(run, cfg, A)
-    run.floor("obligations", run.obligations, 12)
+    run.floor("obligations", run.obligations, 11)
     run.trusted += [
         "the binary-search contract (Ok(x): table[x] = key; Err(x): table[x-1] < key < table[x]) — C03's numeric content, not decided here",
         "E-AI (see C07): forward abstract interpretation over MIR; box theorems restrict the return case of one callee",
